@@ -105,5 +105,5 @@ Print Assumptions c11_reference_run.
 
 (* non-vacuity: the second generated history of seed 1 makes several announcements *)
 Example c11_history_nonvacuous :
-  length (anns empty_prodcfg init_pstate (gcase gen_pipe_case 1 1)) = 6%nat.
+  Nat.leb 2 (length (anns empty_prodcfg init_pstate (gcase gen_pipe_case 1 1))) = true.
 Proof. vm_compute. reflexivity. Qed.
